@@ -569,6 +569,7 @@ func main() {
 	if err != nil {
 		panic(err)
 	}
+	T.AutoFlush = true
 	hub = vh.InstallSnapHub(T, true)
 	dir, _ := os.MkdirTemp(".", "xfer")
 	defer os.RemoveAll(dir)
